@@ -57,6 +57,14 @@ class ParFamily(common.Family):
         'sim': {'fine': rng.random() < 0.25,
                 'stay': rng.choice([0.0, 0.0, 0.5, 0.8])},
     }
+    # the single input of a parallel stage may itself be the iterator of a
+    # queue that another thread feeds (what the in-process interleaved runner
+    # hands to a threaded stage)
+    cfg['src_kind'] = 'gen'
+    if api in ('pmap', 'piter_fn', 'multiplex') and nsrc == 1 and \
+        rng.random() < 0.35:
+      cfg['src_kind'] = 'dequeue'
+      cfg['rets'] = [False]
     if api == 'iterate_fn':
       cfg['n'] = 1
       cfg['fault'] = rng.choice(['none', 'fail'])
@@ -78,6 +86,7 @@ class ParFamily(common.Family):
             api in ('piter', 'multiplex') and not cfg['use_fn']):
           # no mapped function in these shapes: the source itself fails
           cfg['fail_in'] = 'source'
+          cfg['src_kind'] = 'gen'
         else:
           cfg['fail_in'] = 'fn'
     return cfg
@@ -115,6 +124,16 @@ class ParFamily(common.Family):
       return ('cnt', c)
 
     obs = {'out': [], 'end': None, 'returned': None, 'pool': None}
+    feeder = None
+    if cfg.get('src_kind') == 'dequeue':
+      import threading
+      q1 = iter_utils.IteratorQueue(0, name='feed')
+      feeder = threading.Thread(target=q1.enqueue_from_iterator,
+                                args=(src(0),), name='feeder')
+      feeder.start()
+      src0 = lambda: iter(q1)
+    else:
+      src0 = lambda: src(0)
 
     if api == 'iterate_fn':
       wrapped = iter_utils.iterate_fn(fn, multithread=True)
@@ -141,10 +160,10 @@ class ParFamily(common.Family):
           max_workers=max(needed, 1) + cfg['extra_workers'],
           thread_name_prefix='pool')
     if api == 'pmap':
-      it = iter_utils.pmap(fn, src(0), max_parallism=n, buffer_size=cfg['buf'],
+      it = iter_utils.pmap(fn, src0(), max_parallism=n, buffer_size=cfg['buf'],
                            thread_pool=pool)
     elif api == 'piter_fn':
-      it = iter_utils.piter_fn(iter_fn, input_iterable=src(0), thread_pool=pool,
+      it = iter_utils.piter_fn(iter_fn, input_iterable=src0(), thread_pool=pool,
                                parallism=n, buffer_size=cfg['buf'])
     elif api == 'piter':
       it = iter_utils.piter(iter_fn if cfg['use_fn'] else None,
@@ -161,7 +180,7 @@ class ParFamily(common.Family):
           self.j = j
 
         def __iter__(self):
-          return src(self.j)
+          return src0() if self.j == 0 else src(self.j)
       it = iter_utils.MultiplexIterator(
           data_sources=[Src(j) for j in range(nsrc)],
           iter_fn=iter_fn if cfg['use_fn'] else None, parallism=n, name='mx')
@@ -198,6 +217,8 @@ class ParFamily(common.Family):
     if is_queue:
       obs['returned'] = [list(a) if isinstance(a, tuple) else a
                          for a in it.returned]
+    if feeder is not None:
+      feeder.join()
     if pool is not None:
       if obs['end'] and obs['end'][0] == 'stopped-unstoppable':
         # a plain (n == 0) iterator has no helper threads to release
